@@ -28,6 +28,8 @@ package configs
 //@   assigns nothing
 //@   ensures[fresh] err == nil ==> fresh(g) && fresh(m)
 //@   ensures[guaranteedwithinmax] err == nil ==> fitsIn(m, g)
+//@   ensures[maxasconfigured] err == nil ==> (forall t Key :: has(m, t) <==> (t in cur.Resources.Max))
+//@   ensures[guarasconfigured] err == nil ==> (forall t Key :: has(g, t) <==> (t in cur.Resources.Guaranteed))
 
 // max-applications never increases downwards, and a child under a limited parent must itself be limited
 //@ func checkQueueMaxApplications(cur QueueConfig) (err error)
